@@ -19,7 +19,7 @@
 EXTENDS Api, TLC, Json, IOUtils
 
 CONSTANTS NP, NS, NB, MaxDepth,
-          UsePreludes, UseSystematic, WKey, WEnv, WLoad, WDecode      \* multiplicities of the rarer calls in the call set (bias for the simulator; 1 in exhaustive mode)
+          UsePreludes, UseSystematic, WKey, WEnv, WLoad, WDecode, WSig      \* multiplicities of the rarer calls in the call set (bias for the simulator; 1 in exhaustive mode)
 
 VARIABLES mSt, mHist, mDepth
 
@@ -31,6 +31,7 @@ FP   == 0..(P - 1)
 Aff  == TLCEval({<<x, y>> \in FP \X FP : (y * y) % P = (x * x * x + B) % P})
 SomePt == TLCEval(CHOOSE a \in Aff : a # GenPt /\ a[1] + P < 256)              \* a point whose x has a +p alias in one byte
 NonRes == TLCEval(CHOOSE x \in FP : ~\E a \in Aff : a[1] = x)
+UExc   == TLCEval(CHOOSE u \in FP : (SwuZ * u * u + 1) % P = 0)
 
 (* caller-supplied byte strings by class (the replayer builds a full-size string of the same class) *)
 Content(cls) ==
@@ -53,16 +54,24 @@ Content(cls) ==
     [] cls = "coords_bad" -> <<SomePt[1], (SomePt[2] + 1) % P>>
     [] cls = "xonly"      -> <<SomePt[1]>>
     [] cls = "xonly_bad"  -> <<NonRes>>
+    [] cls = "u_exc"      -> <<UExc>>                                      \* the exceptional SWU input Z u^2 = -1
+    [] cls = "spki_unc"   -> BuildSpki(EncUncompressedB(SomePt))
+    [] cls = "spki_cmp"   -> BuildSpki(EncCompressedB(PDbl(GenPt)))
+    [] cls = "spki_inf"   -> BuildSpki(<<0>>)
+    [] cls = "spki_bits"  -> LET z == BuildSpki(EncCompressedB(SomePt)) IN [z EXCEPT ![2 + Len(SpkiAlg) + 3] = 1]   \* one unused bit declared
+    [] cls = "btc_junk"   -> BuildDerSig(5, 7) \o <<1>>
+    [] cls = "sig_junk"   -> <<5, 7, 0>>                                   \* r || s || v in range, (almost surely) not a signature
+    [] cls = "der_junk"   -> BuildDerSig(5, 7)
 BufClasses == {"inf", "cmp", "unc", "cmp_G", "noncanon", "offcurve", "nonresidue", "hybrid", "badlen", "empty",
-               "sc_small", "sc_zero", "sc_nm1", "sc_n", "sc_max", "coords", "coords_bad", "xonly", "xonly_bad"}
+               "sc_small", "sc_zero", "sc_nm1", "sc_n", "sc_max", "coords", "coords_bad", "xonly", "xonly_bad", "sig_junk", "der_junk", "u_exc", "spki_unc", "spki_cmp", "spki_inf", "spki_bits", "btc_junk"}
 
 (* every call of the API over the pool: one record per (operation, slot assignment, control bit, byte class) *)
 Calls ==
        {[op |-> o, v |-> v] : o \in {"pt.Identity", "pt.Generator"}, v \in PS}
   \cup {[op |-> o, v |-> v, p |-> p, q |-> q] : o \in PointOps2 \cup {"pt.Equal"}, v \in PS, p \in PS, q \in PS}
   \cup {[op |-> o, v |-> v, p |-> p] : o \in PointOps1 \cup {"pt.IsIdentity"}, v \in PS, p \in PS}
-  \cup {[op |-> "pt.CondNegate", v |-> v, p |-> p, c |-> c] : v \in PS, p \in PS, c \in {0, 1}}
-  \cup {[op |-> "pt.CondSelect", v |-> v, p |-> p, q |-> q, c |-> c] : v \in PS, p \in PS, q \in PS, c \in {0, 1}}
+  \cup {[op |-> "pt.CondNegate", v |-> v, p |-> p, c |-> c] : v \in PS, p \in PS, c \in {0, 1, 2}}     \* c = 2: a control word that is neither 0 nor 1
+  \cup {[op |-> "pt.CondSelect", v |-> v, p |-> p, q |-> q, c |-> c] : v \in PS, p \in PS, q \in PS, c \in {0, 1, 2}}
   \cup {[op |-> "pt.ScalarMult", v |-> v, s |-> s, p |-> p] : v \in PS, s \in SS, p \in PS}
   \cup {[op |-> "pt.ScalarBaseMult", v |-> v, s |-> s] : v \in PS, s \in SS}
   \cup {[op |-> "pt.DoubleScalarMult", v |-> v, s |-> s, t |-> t, p |-> p] : v \in PS, s \in SS, t \in SS, p \in PS}
@@ -82,27 +91,32 @@ Calls ==
   \cup {[op |-> "pt.NewFromBytes", v |-> v, b |-> b, w |-> w] : v \in PS, b \in BS, w \in 1..WDecode}
   \cup {[op |-> o, v |-> v] : o \in {"pt.NewIdentity", "pt.NewGenerator"}, v \in PS}
   \cup {[op |-> "pt.NewFrom", v |-> v, p |-> p] : v \in PS, p \in PS}
-  \cup {[op |-> "pt.FromCoords", v |-> v, b |-> b] : v \in PS, b \in BS}
+  \cup {[op |-> o, v |-> v, b |-> b] : o \in {"pt.FromCoords", "pt.SetUniform"}, v \in PS, b \in BS}
   \cup {[op |-> "pt.Recover", v |-> v, s |-> s, c |-> c] : v \in PS, s \in SS, c \in {0, 1, 2, 3, 4}}
   \cup {[op |-> o, b |-> b, w |-> w] : o \in {"skey.New", "skey.Bytes", "spub.New", "spub.Bytes"}, b \in BS, w \in 1..WKey}
   \cup {[op |-> o, w |-> w] : o \in {"skey.FromECDSA", "spub.FromECDSA"}, w \in 1..WKey}
   \cup {[op |-> "skey.Scalar", s |-> s, w |-> w] : s \in SS, w \in 1..WKey}
   \cup {[op |-> "spub.FromPoint", p |-> p, w |-> w] : p \in PS, w \in 1..WKey}
   \cup {[op |-> "spub.Point", v |-> v, w |-> w] : v \in PS, w \in 1..WKey}
+  \cup {[op |-> o, m |-> m, b |-> b, c |-> c, w |-> w] : o \in {"key.Sign", "key.Verify"}, m \in BS, b \in BS, c \in {0, 1, 2}, w \in 1..WSig}
+  \cup {[op |-> "key.Sign", m |-> m, b |-> b, c |-> 3, w |-> 1] : m \in BS, b \in BS}                      \* an encoding that does not exist
+  \cup {[op |-> o, m |-> m, b |-> b, w |-> w] : o \in {"key.Recover", "skey.Sign", "spub.Verify", "btc.Verify"}, m \in BS, b \in BS, w \in 1..WSig}
+  \cup {[op |-> o, b |-> b, w |-> w] : o \in {"key.PubASN1", "key.ParseASN1"}, b \in BS, w \in 1..WKey}
+  \cup {[op |-> "env.AppendByte", b |-> b, w |-> w] : b \in BS, w \in 1..WEnv}
   \cup {[op |-> "env.LoadBuf", b |-> b, cls |-> c, content |-> Content(c), w |-> w] : b \in BS, c \in BufClasses, w \in 1..WLoad}
   \cup {[op |-> "env.MutateBuf", b |-> b, cls |-> "flip", w |-> w] : b \in BS, w \in 1..WEnv}
   \cup {[op |-> "env.MutateScalar", s |-> s, w |-> w] : s \in SS, w \in 1..WEnv}
   \cup {[op |-> o, p |-> p, w |-> w] : o \in {"env.MutatePoint", "env.ForgetPoint"}, p \in PS, w \in 1..WEnv}
 AllCalls == TLCEval(Calls)
 
+Init0 == [pt |-> [i \in PS |-> Uninit], sc |-> [i \in SS |-> EncSc(0)], buf |-> [i \in BS |-> <<>>], priv |-> Nil, pub |-> Nil,
+          spriv |-> Nil, spub |-> Nil]
+
 (* env.MutateBuf flips the first byte (or appends one to an empty buffer): content depends on the state *)
 Concrete(st, ev) ==
   IF ev.op = "env.MutateBuf"
   THEN [ev EXCEPT !.cls = "flip"] @@ [content |-> LET b == st.buf[ev.b] IN IF Len(b) = 0 THEN <<1>> ELSE <<(b[1] + 1) % 256>> \o Tail(b)]
   ELSE ev
-
-Init0 == [pt |-> [i \in PS |-> Uninit], sc |-> [i \in SS |-> EncSc(0)], buf |-> [i \in BS |-> <<>>], priv |-> Nil, pub |-> Nil,
-          spriv |-> Nil, spub |-> Nil]
 
 (* preludes: short call sequences that establish key objects / valid points, so that simulated behaviours start in interesting regions *)
 Preludes ==
@@ -121,12 +135,40 @@ Preludes ==
     << [op |-> "env.LoadBuf", b |-> 0, cls |-> "sc_nm1", content |-> Content("sc_nm1")], [op |-> "key.NewPrivate", b |-> 0], [op |-> "skey.FromECDSA"],
        [op |-> "spub.Point", v |-> 0] >>,
     << [op |-> "env.LoadBuf", b |-> 0, cls |-> "sc_n", content |-> Content("sc_n")], [op |-> "sc.SetCanonicalBytes", s |-> 0, b |-> 0],
-       [op |-> "pt.Generator", v |-> 0], [op |-> "pt.Identity", v |-> 1] >> }
+       [op |-> "pt.Generator", v |-> 0], [op |-> "pt.Identity", v |-> 1] >>,
+    (* sign, keep the signature, sign something else, verify both, scribble, verify again, recover *)
+    << [op |-> "env.LoadBuf", b |-> 1, cls |-> "sc_small", content |-> Content("sc_small")], [op |-> "key.NewPrivate", b |-> 1],
+       [op |-> "key.Sign", m |-> 1, b |-> 0, c |-> 2], [op |-> "key.Verify", m |-> 1, b |-> 0, c |-> 2], [op |-> "key.Recover", m |-> 1, b |-> 0],
+       [op |-> "key.Verify", m |-> 1, b |-> 0, c |-> 2] >>,
+    << [op |-> "env.LoadBuf", b |-> 1, cls |-> "sc_nm1", content |-> Content("sc_nm1")], [op |-> "key.NewPrivate", b |-> 1],
+       [op |-> "key.Sign", m |-> 1, b |-> 0, c |-> 1], [op |-> "key.PrivBytes", b |-> 1], [op |-> "key.Sign", m |-> 1, b |-> 1, c |-> 1],
+       [op |-> "key.Verify", m |-> 1, b |-> 0, c |-> 1] >>,
+    << [op |-> "env.LoadBuf", b |-> 1, cls |-> "sc_small", content |-> Content("sc_small")], [op |-> "key.NewPrivate", b |-> 1],
+       [op |-> "key.Sign", m |-> 1, b |-> 0, c |-> 0], [op |-> "key.Verify", m |-> 1, b |-> 0, c |-> 0] >>,
+    << [op |-> "env.LoadBuf", b |-> 1, cls |-> "sc_small", content |-> Content("sc_small")], [op |-> "skey.New", b |-> 1],
+       [op |-> "skey.Sign", m |-> 1, b |-> 0], [op |-> "spub.Verify", m |-> 1, b |-> 0], [op |-> "skey.Sign", m |-> 0, b |-> 1],
+       [op |-> "spub.Verify", m |-> 0, b |-> 1] >> }
+  \cup
+    { << [op |-> "env.LoadBuf", b |-> 1, cls |-> "sc_small", content |-> Content("sc_small")], [op |-> "key.NewPrivate", b |-> 1],
+         [op |-> "key.Sign", m |-> 1, b |-> 0, c |-> 0], [op |-> "env.AppendByte", b |-> 0], [op |-> "btc.Verify", m |-> 1, b |-> 0],
+         [op |-> "key.PubASN1", b |-> 0], [op |-> "env.AppendByte", b |-> 0], [op |-> "key.PubASN1", b |-> 0], [op |-> "key.ParseASN1", b |-> 0],
+         [op |-> "btc.Verify", m |-> 1, b |-> 0] >> }
+  \cup (IF NB < 3 THEN {} ELSE
+    (* a signature is kept while DIFFERENT messages are signed into another buffer, then verified *)
+    { << [op |-> "env.LoadBuf", b |-> 1, cls |-> "sc_small", content |-> Content("sc_small")], [op |-> "key.NewPrivate", b |-> 1],
+         [op |-> "key.Sign", m |-> 1, b |-> 0, c |-> enc],
+         [op |-> "env.LoadBuf", b |-> 2, cls |-> "sc_nm1", content |-> Content("sc_nm1")], [op |-> "key.Sign", m |-> 2, b |-> 2, c |-> enc2],
+         [op |-> "key.Verify", m |-> 1, b |-> 0, c |-> enc] >> : enc \in {0, 1, 2}, enc2 \in {1, 2} }
+    \cup
+    { << [op |-> "env.LoadBuf", b |-> 1, cls |-> "sc_small", content |-> Content("sc_small")], [op |-> "skey.New", b |-> 1],
+         [op |-> "skey.Sign", m |-> 1, b |-> 0],
+         [op |-> "env.LoadBuf", b |-> 2, cls |-> "cmp", content |-> Content("cmp")], [op |-> "skey.Sign", m |-> 2, b |-> 2],
+         [op |-> "spub.Verify", m |-> 1, b |-> 0] >> })
 RECURSIVE RunPrelude(_, _, _)
 RunPrelude(st, hist, pre) ==
   IF Len(pre) = 0 THEN <<st, hist>>
-  ELSE LET r == Step(st, pre[1]) IN
-       RunPrelude(r.st, Append(hist, [x \in DOMAIN pre[1] \ {"content", "w"} |-> pre[1][x]] @@ [kind |-> r.kind]), Tail(pre))
+  ELSE LET cev == Concrete(st, pre[1])  r == Step(st, cev) IN
+       RunPrelude(r.st, Append(hist, [x \in DOMAIN cev \ {"content", "w"} |-> cev[x]] @@ [kind |-> r.kind]), Tail(pre))
 
 (* ---- systematic schedules: EVERY call of the call set (every operation x slot assignment x control bit), in two contexts (the   *)
 (* all-uninitialised pool; a pool with valid points, scalars and all four key objects), and for calls that read a buffer with      *)
@@ -136,12 +178,22 @@ CtxValid ==
      [op |-> "env.LoadBuf", b |-> 1, cls |-> "sc_small", content |-> Content("sc_small")], [op |-> "sc.SetBytes", s |-> 0, b |-> 1],
      [op |-> "env.LoadBuf", b |-> 1, cls |-> "sc_nm1", content |-> Content("sc_nm1")], [op |-> "sc.SetCanonicalBytes", s |-> 1, b |-> 1],
      [op |-> "key.NewPrivate", b |-> 1], [op |-> "skey.FromECDSA"],
-     [op |-> "env.LoadBuf", b |-> 0, cls |-> "unc", content |-> Content("unc")] >>
-ReadsBuf(ev) == ev.op \in DecodeOps \cup {"pt.NewFromBytes", "pt.FromCoords", "sc.SetBytes", "sc.SetCanonicalBytes", "key.NewPrivate", "key.NewPublic", "skey.New", "spub.New"}
+     [op |-> "key.Sign", m |-> 1, b |-> 0, c |-> 2] >>                      \* buffer 0 holds a signature handed out earlier
+SigOps == {"key.Sign", "key.Verify", "key.Recover", "skey.Sign", "spub.Verify", "btc.Verify", "key.ParseASN1"}
+ReadsBuf(ev) == ev.op \in DecodeOps \cup {"pt.NewFromBytes", "pt.FromCoords", "pt.SetUniform", "sc.SetBytes", "sc.SetCanonicalBytes", "key.NewPrivate", "key.NewPublic", "skey.New", "spub.New"} \cup SigOps
+ReadSlot(ev) == IF ev.op \in {"key.Sign", "skey.Sign"} THEN ev.m ELSE ev.b           \* the buffer whose CLASS decides the outcome
 SysCalls == {ev \in AllCalls : ~IsEnv(ev) /\ (NP < 3 \/ NS < 2 \/ NB < 2 \/ TRUE)}
+(* ... and after the call the CALLER scribbles over everything the call was given or handed out: the buffers it read or wrote, *)
+(* the point / scalar a key accessor returned or a key constructor was built from (whole pool is compared after every step)    *)
+Aftermath(ev) ==
+     (IF "b" \in DOMAIN ev THEN << [op |-> "env.MutateBuf", b |-> ev.b, cls |-> "flip"] >> ELSE <<>>)
+  \o (IF "m" \in DOMAIN ev /\ ev.m # ev.b THEN << [op |-> "env.MutateBuf", b |-> ev.m, cls |-> "flip"] >> ELSE <<>>)
+  \o (IF ev.op \in {"key.PubPoint", "spub.Point"} THEN << [op |-> "env.MutatePoint", p |-> ev.v] >> ELSE <<>>)
+  \o (IF ev.op \in {"key.NewPublicFromPoint", "spub.FromPoint"} THEN << [op |-> "env.MutatePoint", p |-> ev.p] >> ELSE <<>>)
+  \o (IF ev.op \in {"key.PrivScalar", "skey.Scalar", "key.NewPrivateFromScalar"} THEN << [op |-> "env.MutateScalar", s |-> ev.s] >> ELSE <<>>)
 SysSchedules ==
-  {ctx \o <<ev>> : ctx \in {<<>>, CtxValid}, ev \in {e \in SysCalls : ~ReadsBuf(e)}}
-  \cup {ctx \o << [op |-> "env.LoadBuf", b |-> ev.b, cls |-> c, content |-> Content(c)], ev >> :
+  {ctx \o <<ev>> \o Aftermath(ev) : ctx \in {<<>>, CtxValid}, ev \in {e \in SysCalls : ~ReadsBuf(e)}}
+  \cup {ctx \o << [op |-> "env.LoadBuf", b |-> ReadSlot(ev), cls |-> c, content |-> Content(c)], ev >> \o Aftermath(ev) :
           ctx \in {<<>>, CtxValid}, ev \in {e \in SysCalls : ReadsBuf(e)}, c \in BufClasses}
 
 Init == /\ mDepth = 0
@@ -165,7 +217,7 @@ Next ==
      /\ mDepth' = MaxDepth + 1 /\ UNCHANGED <<mSt, mHist>>
 
 (* invariants *)
-Valid  == StateOK(mSt)
+Valid  == StateOK(mSt) /\ SignOK(mSt)
 Steps  == mDepth < MaxDepth => \A ev \in AllCalls : StepOK(mSt, Concrete(mSt, ev))
 View   == <<mSt, mDepth>>
 ASSUME TLCSet(7, 0)
